@@ -4,6 +4,8 @@ Theorems: PepperProps/C01.lean over PepperModel/{Constraint,Comp,Denote,Pil}.lea
 Correspondence: real `compiler(..., synth=True)` vs model op `compile` on generated component programs
 (text rendered for the real compiler, AST for the model); compared as token lines + anonymous counter.
 Oracle (decides violations): canon(Pil.denote(read_pil(impl's .pil))) == canon(denoteSrc(AST))."""
+import re
+
 import core
 from core import Result
 import progen
@@ -32,4 +34,25 @@ def run(st, tier, seed):
     bundles += exb
     compile_check.run_bundles(st, res, bundles, "C01", "component")
     res.programs = len(bundles)
+    # text level: the model of the .comp statement parsers (PepperModel/ParseComp.lean, theorems PepperProps/ParseComp.lean)
+    # against the real regex parsers and the real load_component loop
+    if st.driver_ok:
+        import parsecorr_comp
+        drv = core.Driver()
+        quick = tier == "quick"
+        parsecorr_comp.check_lines(res, drv, parsecorr_comp.gen_lines(rng, 2500 if quick else 80000), "text")
+        parsecorr_comp.check_docs(res, drv, parsecorr_comp.gen_docs(rng, 150 if quick else 5000), "text-doc")
+        # the generated programs themselves, as text (no template parameters: the file is its own substituted document)
+        docs = []
+        for _, b in bundles[:80 if quick else 3000]:
+            if b is None or getattr(b, "args", None):
+                continue
+            for k, t in sorted(b.texts.items()):
+                if k.endswith(".comp"):
+                    lines_ = [l for l in t.split("\n") if l.split("#")[0].strip()]
+                    if lines_:
+                        docs.append((lines_[0].split("#")[0].strip(), "".join(re.sub(r"#.*", "", l) + "\n" for l in t.split("\n")[t.split("\n").index(lines_[0]) + 1:])))
+        parsecorr_comp.check_docs(res, drv, docs[:120 if quick else 4000], "text-bundle")
+        if not quick:
+            parsecorr_comp.check_docs(res, drv, [(d, t) for _, _, d, t in parsecorr_comp.example_docs()], "text-examples")
     return res
